@@ -1,5 +1,12 @@
 /* C10: the counter is atomic and its waiters are released exactly at zero. */
+#include "nsync_cpp.h"
+#include "platform.h"
+#include "compiler.h"
+#include "cputype.h"
 #include "nsync.h"
+#include "dll.h"
+#include "sem.h"
+#include "wait_internal.h"
 #include "vf_api.h"
 #include <errno.h>
 nsync_counter c;
@@ -44,5 +51,29 @@ void late_waiter (void) {
 		uint32_t r = nsync_counter_wait (c, nsync_time_no_deadline);
 		vf_assert (r == 0);
 	}
+}
+/* a PASSIVE waiter: a record registered on the counter through the waitable interface by the set-up code, standing for a
+   thread that waits without deadline.  "Every thread waiting when the counter reaches zero is released": its flag must be
+   cleared by the add that reaches zero, whatever a timed waiter queued behind it does meanwhile. */
+struct nsync_waiter_s passive;
+nsync_semaphore passive_sem;
+void setup_passive (void) {
+	c = nsync_counter_new (1); vf_assume (c != 0);
+	passive.tag = 0; passive.flags = 0; passive.sem = &passive_sem;
+	nsync_dll_init_ (&passive.q, &passive);
+	*(unsigned *) &passive.waiting = 0;
+	nsync_mu_semaphore_init (&passive_sem);
+	vf_assert ((*nsync_counter_waitable_funcs.enqueue) (c, &passive) != 0);
+}
+void dec_once (void) { uint32_t v = nsync_counter_add (c, -1); vf_assert (v == 0); }
+void waiter_timed1 (void) {
+	long ds = (long) (vf_nondet () & 0xff);
+	uint32_t r = nsync_counter_wait (c, nsync_time_s_ns (ds, 0));
+	if (r != 0) { vf_assert (vf_now_ge (ds, 0)); }
+	else { vf_assert (nsync_counter_value (c) == 0); }
+}
+void final_passive (void) {
+	vf_assert (nsync_counter_value (c) == 0);
+	vf_assert (*(unsigned *) &passive.waiting == 0);     /* released exactly at zero */
 }
 void final_check (void) { vf_assert (nsync_counter_value (c) == 0); nsync_counter_free (c); }
